@@ -46,6 +46,7 @@ func main() {
 	fs.StringVar(&o.funcs, "funcs", "", "comma-separated pkg.func[label] list (instead of -prop)")
 	fs.BoolVar(&o.verbose, "v", false, "verbose")
 	fs.BoolVar(&o.names, "names", false, "list every obligation")
+	fs.StringVar(&o.levelNote, "level", "proof", "level written to the evidence (a property whose deciding part is the bounded stand-in says exploration)")
 	fs.StringVar(&o.lock, "lock", "/verif/contracts.lock.json", "name lock file (see lock.go)")
 	fs.StringVar(&o.only, "only", "", "development: discharge only obligations whose name contains this substring")
 	fs.Parse(os.Args[2:])
@@ -731,7 +732,10 @@ func report(o *Options, w *World, results []*FuncResult, jobs []*job, start time
 		"solver_s": round3(solverTime), "cover_checks": covers, "cover_vacuous": len(coverBad), "samples": samples,
 		"known_findings_hit": knownHits, "solver_timeout_s": o.timeout,
 	}
-	level := "proof"
+	level := o.levelNote
+	if level == "" {
+		level = "proof"
+	}
 	if o.extra != "" {
 		if b, err := os.ReadFile(o.extra); err == nil {
 			var ex map[string]interface{}
